@@ -1252,3 +1252,338 @@ Proof.
     rewrite !repeat_length.
     split; [reflexivity|]. split; [lia|]. split; [lia|]. intros f Hf. lia.
 Qed.
+
+(* ================================================================================================
+   No assert fires: progress lemmas under the queue invariants (rollback mode, no sparse saving,
+   no disconnects).  These discharge the premise `= Ok` of the theorems above for C01's space.
+   ================================================================================================ *)
+Section Progress.
+Variable predict : Z -> Z.
+
+Lemma all_clean_reset : forall qs, all_clean (map reset_prediction qs).
+Proof. induction qs; constructor; auto. Qed.
+
+Lemma QsI_reset : forall c c' L qs gs, QsI c L qs gs -> QsI c' L (map reset_prediction qs) gs.
+Proof.
+  intros c c' L qs gs H. induction H as [|q g qs gs Hq HQ IH]; constructor; [eapply qi_reset; exact Hq|exact IH].
+Qed.
+
+Lemma same_user_reset : forall qs, same_user qs (map reset_prediction qs).
+Proof. induction qs as [|q qs IH]; constructor; [split; reflexivity|exact IH]. Qed.
+
+Lemma QsI_length : forall c L qs gs, QsI c L qs gs -> length qs = length gs.
+Proof. intros c L qs gs H. induction H; cbn; auto. Qed.
+
+(* re-simulation never panics *)
+Lemma resim_progress : forall n i p gs L mc o,
+  ps_sparse p = false -> connected (ps_status p) ->
+  length (ps_status p) = length (s_queues (ps_sync p)) ->
+  QsI (s_current (ps_sync p)) L (s_queues (ps_sync p)) gs -> all_clean (s_queues (ps_sync p)) ->
+  0 <= s_current (ps_sync p) -> L <= s_current (ps_sync p) ->
+  exists p' o', resim_go predict n i p mc o = Ok (p', o') /\
+    QsI (s_current (ps_sync p')) L (s_queues (ps_sync p')) gs /\ all_clean (s_queues (ps_sync p')) /\
+    same_user (s_queues (ps_sync p)) (s_queues (ps_sync p')) /\
+    s_last_confirmed (ps_sync p') = s_last_confirmed (ps_sync p) /\
+    ps_status p' = ps_status p.
+Proof.
+  induction n as [|n IH]; intros i p gs L mc o Hsp Hcon Hlen HQ Hcl Hc HL.
+  - cbn [resim_go]. exists p, o. split; [reflexivity|]. split; [exact HQ|]. split; [exact Hcl|].
+    split; [apply same_user_refl|]. split; reflexivity.
+  - cbn [resim_go]. unfold synchronized_inputs.
+    destruct (sync_inputs_go_ok predict (ps_status p) (s_queues (ps_sync p)) gs (s_current (ps_sync p)) L HQ Hcl Hlen Hcon Hc HL)
+      as (qs' & ins & E & HQ' & Hcl' & Hl' & _ & Hsu).
+    rewrite E. cbn [res_bind]. rewrite Hsp.
+    set (s1 := with_queues (ps_sync p) qs').
+    assert (Hsave : exists s2 o2, (if 0 <? i then res_bind (save_current_state s1) (fun '(s2, r) => Ok (s2, add_req o r)) else Ok (s1, o)) = Ok (s2, o2) /\
+                     s_queues s2 = qs' /\ s_current s2 = s_current (ps_sync p) /\ s_last_confirmed s2 = s_last_confirmed (ps_sync p)).
+    { destruct (0 <? i).
+      - unfold save_current_state. subst s1. cbn [with_queues s_current].
+        assert ((s_current (ps_sync p) <? 0) = false) as -> by lia. cbn [res_bind].
+        eexists; eexists. split; [reflexivity|]. repeat split.
+      - exists s1, o. split; [reflexivity|]. repeat split. }
+    destruct Hsave as (s2 & o2 & Es & Hq2 & Hc2 & HL2). rewrite Es. cbn [res_bind].
+    set (p1 := with_sync p (advance_frame s2)).
+    destruct (IH (i + 1) p1 gs L mc (add_req o2 (RAdvance ins))) as (p' & o' & E' & A1 & A2 & A3 & A4 & A5).
+    + exact Hsp.
+    + exact Hcon.
+    + subst p1. cbn [with_sync ps_status ps_sync advance_frame with_current s_queues]. rewrite Hq2.
+      pose proof (QsI_length _ _ _ _ HQ'). pose proof (QsI_length _ _ _ _ HQ). lia.
+    + subst p1. cbn [with_sync ps_sync advance_frame with_current s_queues s_current]. rewrite Hq2, Hc2. exact HQ'.
+    + subst p1. cbn [with_sync ps_sync advance_frame with_current s_queues]. rewrite Hq2. exact Hcl'.
+    + subst p1. cbn [with_sync ps_sync advance_frame with_current s_current]. lia.
+    + subst p1. cbn [with_sync ps_sync advance_frame with_current s_current]. lia.
+    + exists p', o'. split; [exact E'|].
+      subst p1. cbn [with_sync ps_sync ps_status advance_frame with_current s_queues s_last_confirmed] in A3, A4, A5.
+      split; [exact A1|]. split; [exact A2|].
+      split; [eapply same_user_trans; [exact Hsu|rewrite Hq2 in A3; exact A3]|].
+      split; [rewrite A4; exact HL2|exact A5].
+Qed.
+
+End Progress.
+
+Section Progress2.
+Variable predict : Z -> Z.
+
+Lemma resim_current : forall n i p mc o p' o',
+  resim_go predict n i p mc o = Ok (p', o') ->
+  s_current (ps_sync p') = s_current (ps_sync p) + Z.of_nat n.
+Proof.
+  induction n as [|n IH]; intros i p mc o p' o' H; cbn [resim_go] in H.
+  - inversion H; subst. cbn. lia.
+  - apply res_bind_ok in H. destruct H as ([s1 ins] & E1 & H).
+    destruct (synchronized_inputs_sync _ _ _ _ _ E1) as (_ & Hc1 & _ & _).
+    apply res_bind_ok in H. destruct H as ([s2 o2] & E2 & H).
+    assert (Hc2 : s_current s2 = s_current s1).
+    { destruct (ps_sparse p).
+      - destruct (s_current s1 =? mc); [|inversion E2; reflexivity].
+        apply res_bind_ok in E2. destruct E2 as ([s2' r] & Es & E2). inversion E2; subst.
+        apply save_current_state_inv in Es. apply Es.
+      - destruct (0 <? i); [|inversion E2; reflexivity].
+        apply res_bind_ok in E2. destruct E2 as ([s2' r] & Es & E2). inversion E2; subst.
+        apply save_current_state_inv in Es. apply Es. }
+    apply IH in H. cbn [with_sync ps_sync advance_frame with_current s_current] in H. lia.
+Qed.
+
+Lemma adjust_progress : forall p gs L fi mc o g w hi,
+  ps_sparse p = false -> connected (ps_status p) ->
+  length (ps_status p) = length (s_queues (ps_sync p)) ->
+  QsI (s_current (ps_sync p)) L (s_queues (ps_sync p)) gs ->
+  L < fi -> fi < s_current (ps_sync p) -> -1 <= L -> s_current (ps_sync p) - w <= fi ->
+  0 <= w -> s_maxpred (ps_sync p) = w -> gframe g = s_current (ps_sync p) ->
+  s_current (ps_sync p) - 1 <= hi ->
+  CellsI w (Z.max 0 (s_current (ps_sync p) - w)) hi (ps_sync p) g ->
+  exists p' o', adjust_gamestate predict p fi mc o = Ok (p', o') /\
+    QsI (s_current (ps_sync p)) L (s_queues (ps_sync p')) gs /\ all_clean (s_queues (ps_sync p')) /\
+    same_user (s_queues (ps_sync p)) (s_queues (ps_sync p')) /\
+    s_last_confirmed (ps_sync p') = s_last_confirmed (ps_sync p) /\ ps_status p' = ps_status p /\
+    s_current (ps_sync p') = s_current (ps_sync p).
+Proof.
+  intros p gs L fi mc o g w hi Hsp Hcon Hlen HQ HLfi Hfic HL Hwin Hw Hmp Hgf Hhi Hcells.
+  set (c := s_current (ps_sync p)) in *.
+  assert (Hcn : CellsI w (Z.max 0 (c - w)) (c - 1) (ps_sync p) g) by (eapply CellsI_narrow; [exact Hcells|lia|lia]).
+  destruct (load_ok w (Z.max 0 (c - w)) (c - 1) (ps_sync p) g fi Hcn Hw Hgf ltac:(lia) ltac:(lia) Hfic Hwin)
+    as (s1 & g1 & El & _ & Hs1 & _ & _ & _).
+  set (p1 := with_sync p (reset_all s1)).
+  destruct (resim_progress predict (Z.to_nat (c - fi)) 0 p1 gs L mc (add_req o (RLoad fi))) as (p2 & o2 & Er & A1 & A2 & A3 & A4 & A5).
+  - exact Hsp.
+  - exact Hcon.
+  - subst p1. rewrite Hs1. cbn [with_sync ps_status ps_sync reset_all with_queues s_queues with_current]. rewrite map_length. exact Hlen.
+  - subst p1. rewrite Hs1. cbn [with_sync ps_sync reset_all with_queues s_queues s_current with_current].
+    eapply QsI_reset. exact HQ.
+  - subst p1. rewrite Hs1. cbn [with_sync ps_sync reset_all with_queues s_queues with_current]. apply all_clean_reset.
+  - subst p1. rewrite Hs1. cbn. lia.
+  - subst p1. rewrite Hs1. cbn. lia.
+  - pose proof (resim_current _ _ _ _ _ _ _ Er) as Hcur2.
+    assert (Hc2 : s_current (ps_sync p2) = c).
+    { rewrite Hcur2. subst p1. rewrite Hs1. cbn [with_sync ps_sync reset_all with_queues s_current with_current]. lia. }
+    exists p2, o2. unfold adjust_gamestate. rewrite Hsp. fold c.
+    assert ((fi <? fi) = false) as -> by lia. rewrite El. cbn [res_bind]. fold p1. rewrite Er. cbn [res_bind].
+    rewrite Hc2, Z.eqb_refl. cbn [negb]. split; [reflexivity|].
+    subst p1. rewrite Hs1 in A3, A4, A5. cbn [with_sync ps_sync ps_status reset_all with_queues s_queues s_last_confirmed with_current] in A3, A4, A5.
+    rewrite Hc2 in A1.
+    split; [exact A1|]. split; [exact A2|].
+    split; [eapply same_user_trans; [apply same_user_reset|exact A3]|].
+    split; [exact A4|]. split; [exact A5|first [exact Hc2|reflexivity]].
+Qed.
+
+End Progress2.
+
+Section Progress3.
+Variable predict : Z -> Z.
+
+Lemma csc_spec : forall qs gs c L acc,
+  QsI c L qs gs -> (acc = NULL \/ (L < acc <= c - 1)) ->
+  let r := fold_left (fun acc q => let inc := q_first_incorrect q in
+                        if negb (inc =? NULL) && ((acc =? NULL) || (inc <? acc)) then inc else acc) qs acc in
+  (r = NULL /\ acc = NULL /\ all_clean qs) \/ (L < r <= c - 1).
+Proof.
+  intros qs gs c L acc H. revert acc. induction H as [|q g qs gs Hq HQ IH]; intros acc Hacc; cbn [fold_left].
+  - destruct Hacc as [->|Hacc]; [left; repeat split; constructor|right; exact Hacc].
+  - cbv zeta.
+    destruct (Z.eqb_spec (q_first_incorrect q) NULL) as [En|En]; cbn [negb andb].
+    + destruct (IH acc Hacc) as [(A & B & C)|A]; [left|right; exact A].
+      split; [exact A|]. split; [exact B|]. constructor; assumption.
+    + destruct (qi_p4 _ _ _ _ _ Hq En) as (_ & (P1 & P2) & P3).
+      destruct ((acc =? NULL) || (q_first_incorrect q <? acc)) eqn:Ec.
+      * destruct (IH (q_first_incorrect q) (or_intror (conj P1 P3))) as [(A & B & C)|A]; [congruence|right; exact A].
+      * destruct Hacc as [->|Hacc]; [cbn in Ec; discriminate|].
+        destruct (IH acc (or_intror Hacc)) as [(A & B & C)|A]; [unfold NULL in *; lia|right; exact A].
+Qed.
+
+Lemma max_fi_clean : forall qs, all_clean qs -> max_first_incorrect qs = NULL.
+Proof.
+  intros qs H. unfold max_first_incorrect.
+  assert (G : forall acc, acc = NULL -> fold_left (fun acc q => Z.max acc (q_first_incorrect q)) qs acc = NULL).
+  { induction H as [|q qs Hq Hcl IH]; intros acc Hacc; cbn [fold_left]; [exact Hacc|].
+    apply IH. rewrite Hq, Hacc. reflexivity. }
+  apply G. reflexivity.
+Qed.
+
+(* raising the last confirmed frame *)
+Lemma confirm_progress : forall s gs cf,
+  QsI (s_current s) (s_last_confirmed s) (s_queues s) gs -> all_clean (s_queues s) ->
+  s_last_confirmed s <= Z.min cf (s_current s) ->
+  Forall (fun g => Z.min cf (s_current s) <= hlen (fst g) - 1) gs ->
+  exists s', set_last_confirmed_frame s cf false = Ok s' /\
+    s_last_confirmed s' = Z.min cf (s_current s) /\ sync_frame s s' /\
+    (exists gs', QsI (s_current s) (Z.min cf (s_current s)) (s_queues s') gs' /\ map fst gs' = map fst gs) /\
+    all_clean (s_queues s') /\ same_user (s_queues s) (s_queues s') /\
+    Forall2 (fun q q' => q_pred q' = q_pred q) (s_queues s) (s_queues s').
+Proof.
+  intros s gs cf HQ Hcl HL Hcf. unfold set_last_confirmed_frame.
+  rewrite (max_fi_clean _ Hcl). cbn [Z.eqb NULL orb negb].
+  set (L' := Z.min cf (s_current s)) in *.
+  eexists. split; [reflexivity|]. cbn [s_last_confirmed s_queues].
+  split; [reflexivity|]. split; [repeat split|].
+  assert (G : forall qs gs, QsI (s_current s) (s_last_confirmed s) qs gs -> all_clean qs ->
+              Forall (fun g => L' <= hlen (fst g) - 1) gs ->
+              let qs' := if 0 <? L' then map (fun q => discard_confirmed_frames q (L' - 1)) qs else qs in
+              (exists gs', QsI (s_current s) L' qs' gs' /\ map fst gs' = map fst gs) /\ all_clean qs' /\ same_user qs qs' /\
+              Forall2 (fun q q' => q_pred q' = q_pred q) qs qs').
+  { intros qs0 gs0 H. induction H as [|q g qs1 gs1 Hq HQ1 IH]; intros Hc0 Hf0; cbv zeta.
+    - destruct (0 <? L'); (split; [exists []; split; [constructor|reflexivity]|]; split; [constructor|]; split; constructor).
+    - inversion Hc0 as [|? ? Hq0 Hc1]; subst. inversion Hf0 as [|? ? Hg0 Hf1]; subst.
+      destruct (IH Hc1 Hf1) as ((gs' & A1 & A1') & A2 & A3 & A4). cbv zeta in A1, A2, A3, A4.
+      destruct (qi_confirm (s_current s) (s_last_confirmed s) L' q (fst g) (snd g) Hq Hq0 HL Hg0 ltac:(subst L'; lia))
+        as (low' & B1 & B2 & B3 & B4 & B5).
+      destruct (0 <? L') eqn:E0; cbn [map].
+      + split; [exists ((fst g, low') :: gs'); split; [constructor; [exact B1|exact A1]|cbn; f_equal; exact A1']|].
+        split; [constructor; [exact B2|exact A2]|]. split; [constructor; [split; assumption|exact A3]|].
+        constructor; [exact B5|exact A4].
+      + split; [exists ((fst g, low') :: gs'); split; [constructor; [exact B1|exact A1]|cbn; f_equal; exact A1']|].
+        split; [constructor; [exact B2|exact A2]|]. split; [constructor; [split; assumption|exact A3]|].
+        constructor; [exact B5|exact A4]. }
+  exact (G _ _ HQ Hcl Hcf).
+Qed.
+
+End Progress3.
+
+(* ================= adding inputs: remote arrivals and local registration ================= *)
+Lemma add_input_nofill : forall q hist low uf v,
+  RInv q hist low -> 0 <= q_delay q -> uf + q_delay q = hlen hist ->
+  (q_last_user q = NULL \/ uf = q_last_user q + 1) -> 0 <= uf ->
+  pred_ok q (hlen hist) -> hlen hist + 1 - low <= QLEN ->
+  exists q', add_input q uf v = Ok (q', hlen hist) /\ RInv q' (hist ++ [v]) low /\
+     q_delay q' = q_delay q /\ q_last_user q' = uf /\ q_last_requested q' = q_last_requested q /\
+     q_first_incorrect q' = fi_after q v (hlen hist) /\ q_pred q' = pred_after q v (hlen hist).
+Proof.
+  intros q hist low uf v I Hd Ht Hs Hu Hp Hcap. pose proof (hlen_nonneg hist) as Hnn.
+  rewrite (add_input_seq q uf v Hs Hu).
+  assert (I0 : RInv (set_last_user q uf) hist low) by (eapply RInv_ext; [exact I|reflexivity..]).
+  unfold advance_queue_head. rewrite (expected_frame _ _ _ I0). cbn [set_last_user q_delay]. rewrite Ht.
+  rewrite Z.ltb_irrefl, Z.sub_diag. cbn [Z.to_nat fill_to]. rewrite Z.leb_refl. cbn [res_bind].
+  assert (A : (hlen hist =? 0) || (hlen hist =? pi_frame (slot (q_inputs (set_last_user q uf)) (prev_pos (q_head (set_last_user q uf)))) + 1) = true).
+  { rewrite (prev_slot _ _ _ I0). destruct (Z.eqb_spec (hlen hist) 0); cbn; lia. }
+  rewrite A. cbn [negb res_bind]. cbv beta iota.
+  assert ((hlen hist =? NULL) = false) as -> by (unfold NULL; lia).
+  assert (Hp0 : pred_ok (set_last_user q uf) (hlen hist)) by exact Hp.
+  destruct (add_by_frame_ok _ hist low v I0 ltac:(lia) Hp0) as (q2 & E2 & I2 & D2 & U2 & R2 & F2 & P2 & _).
+  rewrite E2. cbn [res_bind]. exists q2. split; [reflexivity|]. refine (conj I2 _).
+  split; [rewrite D2; reflexivity|]. split; [rewrite U2; reflexivity|]. split; [rewrite R2; reflexivity|].
+  split; [rewrite F2; reflexivity|rewrite P2; reflexivity].
+Qed.
+
+(* the per-queue session invariant survives an insertion at the next frame *)
+Lemma qi_after_add : forall c L q hist low v q',
+  QI c L q hist low -> RInv q' (hist ++ [v]) low ->
+  q_last_requested q' = q_last_requested q ->
+  q_first_incorrect q' = fi_after q v (hlen hist) -> q_pred q' = pred_after q v (hlen hist) ->
+  QI c L q' (hist ++ [v]) low.
+Proof.
+  intros c L q hist low v q' [I P1 P2 P4 Rq Lw Cf] I' R' F' P'.
+  pose proof (hlen_nonneg hist) as Hnn.
+  constructor; rewrite ?hlen_app, ?R'.
+  - exact I'.
+  - rewrite P'. unfold pred_after. destruct (Z.eqb_spec (pi_frame (q_pred q)) NULL) as [En|En]; [left; exact En|].
+    destruct P1 as [P1|P1]; [congruence|]. rewrite P1.
+    destruct ((hlen hist =? q_last_requested q) && _); cbn [pi_frame]; [left|right]; reflexivity.
+  - intros Hact Hfi0. rewrite P' in Hact. rewrite F' in Hfi0.
+    destruct P1 as [P1|P1].
+    { exfalso. apply Hact. unfold pred_after. rewrite P1. cbn. exact P1. }
+    assert (En : (pi_frame (q_pred q) =? NULL) = false) by (unfold NULL; lia).
+    assert (Hact0 : pi_frame (q_pred q) <> NULL) by (unfold NULL; lia).
+    unfold pred_after in Hact. unfold fi_after in Hfi0, Hact. rewrite En in Hfi0, Hact.
+    destruct (Z.eqb_spec (q_first_incorrect q) NULL) as [Ef|Ef]; cbn [andb] in Hfi0, Hact; [|congruence].
+    destruct (Z.eqb_spec (pi_val (q_pred q)) v) as [Ev|Ev]; cbn [negb] in Hfi0, Hact; [|unfold NULL in *; lia].
+    pose proof (P2 Hact0 Ef) as Pl.
+    rewrite Ef in Hact. cbn [Z.eqb NULL] in Hact. rewrite andb_true_r in Hact. rewrite P1 in Hact.
+    destruct (Z.eqb_spec (hlen hist) (q_last_requested q)) as [El|El]; cbn [pi_frame] in Hact.
+    + exfalso. apply Hact. reflexivity.
+    + lia.
+  - intros Hfi'. rewrite F' in Hfi' |- *. rewrite P'. unfold fi_after in Hfi' |- *. unfold pred_after, fi_after.
+    destruct (Z.eqb_spec (pi_frame (q_pred q)) NULL) as [En|En].
+    + destruct (P4 Hfi') as (A & B & C). congruence.
+    + destruct P1 as [P1|P1]; [congruence|].
+      destruct (Z.eqb_spec (q_first_incorrect q) NULL) as [Ef|Ef]; cbn [andb] in Hfi' |- *.
+      * destruct (negb (pi_val (q_pred q) =? v)); [|congruence].
+        assert (Hact0 : pi_frame (q_pred q) <> NULL) by exact En.
+        pose proof (P2 Hact0 Ef) as Pl.
+        assert ((hlen hist =? NULL) = false) as Hn by (unfold NULL; lia).
+        rewrite Hn, andb_false_r. cbn [pi_frame]. split; [unfold NULL; lia|]. split; [lia|].
+        destruct Rq as [Rq|Rq]; rewrite Rq in Pl; unfold NULL in *; lia.
+      * destruct (P4 Ef) as (A & B & C). assert ((q_first_incorrect q =? NULL) = false) as Hn by lia.
+        rewrite Hn, andb_false_r. cbn [pi_frame]. split; [unfold NULL; lia|]. split; lia.
+  - exact Rq.
+  - exact Lw.
+  - lia.
+Qed.
+
+Lemma Forall2_updz {A B} (R : A -> B -> Prop) : forall l1 l2 i x,
+  Forall2 R l1 l2 -> (forall a, nth_error l1 i = Some a -> forall b, nth_error l2 i = Some b -> R x b) ->
+  Forall2 R (updz l1 i x) l2.
+Proof.
+  induction l1 as [|a l1 IH]; intros l2 i x H Hx; inversion H; subst; cbn [updz]; [constructor|].
+  destruct i as [|k].
+  - constructor; [apply (Hx a eq_refl y eq_refl)|assumption].
+  - constructor; [assumption|]. apply IH; [assumption|]. intros a' Ha b Hb. apply (Hx a' Ha b Hb).
+Qed.
+
+Lemma Forall2_updz2 {A B} (R : A -> B -> Prop) : forall l1 l2 i x y,
+  Forall2 R l1 l2 -> R x y -> Forall2 R (updz l1 i x) (updz l2 i y).
+Proof.
+  induction l1 as [|a l1 IH]; intros l2 i x y H Hxy; inversion H; subst; cbn [updz]; [constructor|].
+  destruct i as [|k]; constructor; auto.
+Qed.
+
+Lemma Forall2_nth {A B} (R : A -> B -> Prop) : forall l1 l2 i a b,
+  Forall2 R l1 l2 -> nth_error l1 i = Some a -> nth_error l2 i = Some b -> R a b.
+Proof.
+  induction l1 as [|x l1 IH]; intros l2 i a b H Ha Hb; inversion H; subst; destruct i; cbn in *; try discriminate.
+  - inversion Ha; inversion Hb; subst. assumption.
+  - eapply IH; eassumption.
+Qed.
+
+Lemma nth_error_nth' {A} : forall (l : list A) i d, (i < length l)%nat -> nth_error l i = Some (nth i l d).
+Proof. induction l as [|x l IH]; intros [|i] d H; cbn in *; try lia; auto. apply IH. lia. Qed.
+
+(* ================= the session invariant for runs without disconnects ================= *)
+(* kind-specific facts about a player's queue *)
+Definition KI (c d : Z) (k : pkind) (q : queue) (hist : list Z) : Prop :=
+  match k with
+  | KLocal => q_delay q = d /\
+              ((hist = [] /\ q_last_user q = NULL /\ c = 0 /\ pi_frame (q_pred q) = NULL) \/
+               (hlen hist = c + d /\ q_last_user q = c - 1 /\ 1 <= c) \/
+               (hlen hist = c + d + 1 /\ q_last_user q = c))
+  | KRemote _ => q_delay q = 0 /\ q_last_user q = hlen hist - 1
+  | KSpectator _ => False
+  end.
+
+Record SI (w d : Z) (p : p2p) (gs : list ghost) (g : game) : Prop := {
+  si_ji : JI w p g;
+  si_w : 1 <= w;
+  si_d : 0 <= d /\ w + d + 3 <= QLEN;
+  si_run : ps_running p = true;
+  si_nospec : ps_spectators p = [];
+  si_discf : ps_disc_frame p = NULL;
+  si_n : Z.of_nat (length gs) = ps_nplayers p /\ 0 < ps_nplayers p /\ length (ps_kinds p) = length gs /\
+         length (ps_status p) = length gs;
+  si_conn : connected (ps_status p);
+  si_gossip : Forall (fun e => connected (ev_status e)) (ps_remotes p);
+  si_qs : QsI (s_current (ps_sync p)) (s_last_confirmed (ps_sync p)) (s_queues (ps_sync p)) gs;
+  si_last : Forall2 (fun st g => cs_last st = hlen (fst g) - 1) (ps_status p) gs;
+  si_frames : -1 <= s_last_confirmed (ps_sync p) <= s_current (ps_sync p) /\
+              s_current (ps_sync p) <= Z.max 0 (s_last_confirmed (ps_sync p)) + w;
+  si_kinds : forall h k q gh, nth_error (ps_kinds p) h = Some k -> nth_error (s_queues (ps_sync p)) h = Some q ->
+             nth_error gs h = Some gh -> KI (s_current (ps_sync p)) d k q (fst gh);
+  si_pending : forall h pi, assoc_get (ps_pending p) h = Some pi -> pi_frame pi = s_current (ps_sync p);
+}.
